@@ -24,6 +24,9 @@ def run(ctx):
         for i, line in enumerate(f):
             e = json.loads(line)
             n += 1
+            if e["e"] == "enc":
+                ctx.signatures.add(("enc", min(len(e["bytes"]), 300), e["term"]["k"]))
+                continue
             ctx.signatures.add((e["src"], e["ok"], e["splitKind"], min(e["n"], 60), sum(1 for t in e["typed"].values() if t["ok"])))
             if len(ctx.samples) < 4 and e["n"] < 12:
                 ctx.samples.append({k: e[k] for k in ("src", "in", "ok", "term", "splitKind")})
